@@ -134,14 +134,23 @@ Section Guarded.
   Qed.
 End Guarded.
 
-(** * Without the guard: the interleaving witnesses (unchanged code) *)
+(** * Without the guard: the interleaving witnesses (code with the repair) *)
 Definition wcfg : cfg := mkCfg KBlock 2 100 1.
 Definition wstore : store := [(1, true); (1, true); (1, true); (1, true); (1, true); (1, true); (1, true)].
 
-(** A re-registration while the first goroutine has not yet written its status. *)
-Definition w_two : list yev := [VReg].
+(** A second first registration of the same name (it passed hasSubscriberExist
+    before the first one stored the record): its addTask replaces the entry and
+    starts a second goroutine. *)
+Definition w_two : list yev := [VAddTask].
 (** Both goroutines then deliver the backlog: 2 3 | 4 5 by the first, 2 3 again by the second. *)
 Definition w_dup : list yev :=
+  [VSetLast 1; VAddTask; VRead 0; VRun 0; VRead 1; VRun 1;
+   VSeq 0 5; VPostOk 0; VSeq 0 5; VPostOk 0; VSeq 1 5; VPostOk 1].
+
+(** Before the repair a plain re-registration inside the start-up window was
+    enough (kept for the examples: [fx = false] shows the duplicates, [fx = true] does not). *)
+Definition w_old_two : list yev := [VReg].
+Definition w_old_dup : list yev :=
   [VReg; VRead 0; VRun 0; VRead 1; VRun 1;
    VSeq 0 5; VPostOk 0; VSeq 0 5; VPostOk 0; VSeq 1 5; VPostOk 1].
 
@@ -153,7 +162,7 @@ Qed.
 Lemma reg_acked_refuted : ~ C32_reg_acked_contiguous_increasing_full.
 Proof.
   intros H. destruct (H wcfg wstore 1 w_dup) as (r & _ & _ & Hs).
-  assert (E : y_acked (yrun false wcfg wstore (init_sys0 false 1) w_dup) = [2; 3; 4; 5; 2; 3])
+  assert (E : y_acked (yrun true wcfg wstore (init_sys0 true 1) w_dup) = [2; 3; 4; 5; 2; 3])
     by (vm_compute; reflexivity).
   rewrite E in Hs. clear E.
   repeat match goal with
@@ -167,9 +176,9 @@ Qed.
 
 Lemma reg_rcd_mono_refuted : ~ C32_reg_recorded_monotone_full.
 Proof.
-  intros H. specialize (H wcfg wstore 1 (firstn 9 w_dup) (skipn 9 w_dup)).
-  assert (E1 : y_rcd (yrun false wcfg wstore (init_sys0 false 1) (firstn 9 w_dup)) = 5) by (vm_compute; reflexivity).
-  assert (E2 : y_rcd (yrun false wcfg wstore (init_sys0 false 1) (firstn 9 w_dup ++ skipn 9 w_dup)) = 3)
+  intros H. specialize (H wcfg wstore 1 (firstn 10 w_dup) (skipn 10 w_dup)).
+  assert (E1 : y_rcd (yrun true wcfg wstore (init_sys0 true 1) (firstn 10 w_dup)) = 5) by (vm_compute; reflexivity).
+  assert (E2 : y_rcd (yrun true wcfg wstore (init_sys0 true 1) (firstn 10 w_dup ++ skipn 10 w_dup)) = 3)
     by (vm_compute; reflexivity).
   rewrite E1, E2 in H. lia.
 Qed.
